@@ -99,6 +99,45 @@ def _token_extent(repo, rep):
 
 def _dispatch(repo, rep):
     _token_extent(repo, rep)
+    # every Interpolation node the template program builds requires braces
+    # ('$name' in markup, an attribute value included, is literal text) and
+    # only running text and attribute values are ever offered to the
+    # translation function: a comment or CDATA section is not a message
+    mod = repo.module("chameleon.zpt.program")
+    n_sites = 0
+    for q, f in sorted(repo.funcs.items()):
+        if f.module is not mod:
+            continue
+        for c in ast.walk(f.node):
+            if not (isinstance(c, ast.Call) and
+                    src(c.func) == "nodes.Interpolation"):
+                continue
+            n_sites += 1
+            given = dict(zip(("value", "braces_required", "translation"),
+                             c.args))
+            for k in c.keywords:
+                if k.arg:
+                    given[k.arg] = k.value
+            br = given.get("braces_required")
+            rep.check(isinstance(br, ast.Constant) and br.value is True,
+                      "R06.1", f.qualname, "braces are required (a lone "
+                      "$name is literal text)",
+                      construct="braces-required-arg:" + f.name,
+                      where=L.where(f, c.lineno),
+                      detail=src(br) if br is not None else "missing")
+            if f.name in ("visit_comment", "visit_cdata"):
+                tr = given.get("translation")
+                rep.check(tr is None or (isinstance(tr, ast.Constant)
+                                         and tr.value is False), "R06.1",
+                          f.qualname, "a comment / CDATA section with "
+                          "${...} is interpolated, never handed to the "
+                          "translation function as a message",
+                          construct="no-translation:" + f.name,
+                          where=L.where(f, c.lineno), detail=src(tr)
+                          if tr is not None else "")
+    if n_sites < 4:
+        raise AnalysisError("Interpolation construction sites vanished (%d)"
+                            % n_sites)
     for name in ("visit_text", "visit_comment", "visit_cdata"):
         f = repo.func(PROG + name)
         v = L.emission(repo, f.qualname).value
@@ -530,6 +569,7 @@ def _decode(repo, rep):
     rep.check(knows_apos, "R06.3", sub.qualname, "&apos; (predefined in XML, "
               "absent from html.entities.name2codepoint) is decoded like "
               "&quot;", construct="apos", where=L.where(sub))
+    _entity_table(repo, rep, er, sub)
     t = L.text(sub.node)
     rep.check("return chr(int(ent))" in t and
               "return chr(int('0x' + ent, 16))" in t and
@@ -537,6 +577,157 @@ def _decode(repo, rep):
               "decimal, hexadecimal and named entities are decoded; unknown "
               "names are left alone", construct="entities",
               where=L.where(sub))
+
+
+def _entity_table(repo, rep, er, sub):
+    """Decision table of substitute_entity, decided over all its paths.  The
+    roles of the pattern's groups are read off entity_re ('#', the x/X
+    marker, the body); every path that converts a number must have tested
+    the '#' group for '#' and the marker group for '' (decimal) or x/X
+    (hexadecimal, base 16) in the positive; a named entity is looked up by
+    the body; 'apos' is 39."""
+    C = rx.C
+    tree = rx.parse(er.pattern, er.flags)
+    roles = {}
+    n_groups = 0
+    for gid in range(1, 8):
+        loc = rx.locate_group(tree, gid)
+        if loc is None:
+            break
+        n_groups = gid
+        body = list(loc[0])
+        chars = rx.all_chars(body)
+        if len(body) == 1 and body[0][0] is C.LITERAL and \
+                chr(body[0][1]) == "#":
+            roles[gid] = "hash"
+        elif body and chars == rx.CharSet.of("xX"):
+            roles[gid] = "marker"
+            opt = len(body) == 1 and body[0][0] in (
+                C.MAX_REPEAT, C.MIN_REPEAT) and body[0][1][0] == 0 and \
+                body[0][1][1] == 1
+            rep.check(opt, "R06.3", "chameleon.utils.entity_re", "the "
+                      "hexadecimal marker is optional and single: '&#65;' "
+                      "is a (decimal) character reference",
+                      construct="hex-marker-optional", detail=er.pattern)
+        elif rx.CharSet.of("0123456789") <= chars and \
+                rx.CharSet.of("az") <= chars:
+            roles[gid] = "body"
+    by_role = {v: k for k, v in roles.items()}
+    if set(by_role) != {"hash", "marker", "body"} or n_groups != 3:
+        raise AnalysisError("entity_re: group roles not understood: %s"
+                            % roles)
+    mname = sub.node.args.args[0].arg
+
+    def group_of(e):
+        """index of match.group(k) an expression reads (locals inlined)"""
+        e = L.inline_locals(sub.node, e)
+        ks = [n.args[0].value for n in ast.walk(e)
+              if isinstance(n, ast.Call) and isinstance(n.func, ast.Attribute)
+              and n.func.attr == "group" and src(n.func.value) == mname
+              and n.args and isinstance(n.args[0], ast.Constant)]
+        return ks
+
+    bad = []
+    n_paths = 0
+    seen = set()
+    for path in P.enum_paths(sub.node.body):
+        ret = [ev for ev in path if ev[0] == "return"]
+        if not ret or any(ev[0] == "except" for ev in path):
+            continue
+        n_paths += 1
+        conds = [(ev[1], ev[2]) for ev in path if ev[0] == "cond"]
+        facts = {}
+        for t, v in conds:
+            ti = L.inline_locals(sub.node, t)
+            if isinstance(ti, ast.Compare) and len(ti.ops) == 1:
+                ks = group_of(ti.left)
+                consts = []
+                for c_ in ti.comparators:
+                    for x in ast.walk(c_):
+                        if isinstance(x, ast.Constant) and \
+                                isinstance(x.value, str):
+                            consts.append(x.value)
+                if len(ks) == 1 and consts and isinstance(
+                        ti.ops[0], (ast.Eq, ast.In)):
+                    facts[(ks[0], tuple(sorted(consts)))] = v
+                elif len(ks) == 1:
+                    bad.append("test %s is neither == nor in" % src(t))
+        val = ret[0][1]
+        vt = src(L.inline_locals(sub.node, val)) if val is not None else ""
+        hashed = facts.get((by_role["hash"], ("#",)))
+        dec = facts.get((by_role["marker"], ("",)))
+        hexm = facts.get((by_role["marker"], ("X", "x")))
+        kind = None
+        if "int(" in vt and ", 16)" in vt.replace(" ", "").replace(
+                ",16)", ", 16)"):
+            kind = "hex"
+        elif "int(" in vt:
+            kind = "dec"
+        elif vt.startswith("chr("):
+            kind = "named"
+        elif vt == "%s.group()" % mname or vt == "%s.group(0)" % mname:
+            kind = "asis"
+        elif vt == "''":
+            kind = "empty"
+        else:
+            kind = "other:" + vt[:30]
+        seen.add(kind)
+        for k_ in group_of(val) if val is not None else []:
+            if kind in ("dec", "hex") and k_ != by_role["body"]:
+                bad.append("a number is converted from group %d, the body "
+                           "is group %d" % (k_, by_role["body"]))
+        if kind == "dec" and not (hashed is True and dec is True):
+            bad.append("decimal conversion reached without "
+                       "group(%d) == '#' and group(%d) == '' (%s)" % (
+                           by_role["hash"], by_role["marker"],
+                           L.conds_text([("if" if v else "else", src(t))
+                                         for t, v in conds])[:80]))
+        if kind == "hex" and not (hashed is True and hexm is True):
+            bad.append("hexadecimal conversion reached without "
+                       "group(%d) == '#' and group(%d) in ('x', 'X')" % (
+                           by_role["hash"], by_role["marker"]))
+        if kind == "named" and hashed is not False:
+            bad.append("entity-table lookup reached for a '#' reference")
+        if kind == "empty" and (dec is True or hexm is True):
+            bad.append("a decimal or hexadecimal reference decodes to ''")
+        if kind.startswith("other"):
+            bad.append("unexpected result " + kind)
+    for need in ("dec", "hex", "named", "asis"):
+        if need not in seen:
+            bad.append("no path returns the %s result" % need)
+    # the name looked up is the body; apos is chr(39), chosen when the name
+    # EQUALS 'apos'
+    gets = [n for n in ast.walk(sub.node) if isinstance(n, ast.Call)
+            and isinstance(n.func, ast.Attribute) and n.func.attr == "get"
+            and n.args]
+    if not gets or any(group_of(g.args[0]) != [by_role["body"]]
+                       for g in gets):
+        bad.append("the entity table is not consulted with the body "
+                   "(group %d)" % by_role["body"])
+    ap = [n for n in ast.walk(sub.node) if isinstance(n, (ast.IfExp, ast.If))
+          and any(isinstance(x, ast.Constant) and x.value == "apos"
+                  for x in ast.walk(n.test))]
+    okap = False
+    for n in ap:
+        t = n.test
+        if isinstance(t, ast.Compare) and len(t.ops) == 1 and isinstance(
+                t.ops[0], ast.Eq) and group_of(t.left) == [by_role["body"]]:
+            body = n.body if isinstance(n, ast.IfExp) else None
+            if isinstance(body, ast.Constant) and body.value == 39:
+                okap = True
+            elif body is not None and src(body) in ("ord(\"'\")",
+                                                    "ord(\"\\'\")"):
+                okap = True
+    if not okap:
+        bad.append("'apos' is not mapped to 39 (the apostrophe) by an "
+                   "equality test on the body")
+    rep.check(not bad and n_paths >= 4, "R06.3", sub.qualname, "decision "
+              "table of the entity decoder over its %d paths: '#' + digits "
+              "is decimal, '#' + x/X + digits is hexadecimal (base 16), "
+              "anything else is looked up by name, apos is the apostrophe, "
+              "the rest stays as written" % n_paths,
+              construct="entity-table", where=L.where(sub),
+              detail="; ".join(sorted(set(bad)))[:300])
 
 
 def _loop(repo, rep, rule="R06.4"):
